@@ -135,6 +135,10 @@ def _grid():
         add("DistErlang", scale=1.0, k=k)
     for k, sc in ((1, 0.05), (9, 50.0), (10, 0.3), (30, 4.0), (3, 2)):
         add("DistErlang", scale=sc, k=k)
+    # far above the switch-over (the density can still be evaluated up to k ~ 140); a larger sample: an approximation
+    # of the shape by a symmetric law is off by D ~ 0.014 only
+    for k in (101, 120):
+        add("DistErlang", scale=1.0, k=k, _n=150000)
     for m in (0.05, 1.0, 1.2, 50.0, 3):
         add("DistExponential", mean=m)
     # beta: every pair of inner gamma branches
@@ -211,7 +215,11 @@ _ERFINV_GRID = [0.0, 1e-300, 1e-12, 1e-6, 0.1, 0.5, 0.7499999, 0.75, 0.7500001, 
 def enumerate_cases(tier):
     cases = []
     for i, (cls, kw) in enumerate(_grid()):
+        kw = dict(kw)
+        n_over = kw.pop("_n", None)
         cases.append(_case(cls, kw, 7000 + i, tier, "grid", probes=[0.5 / 7 + j / 7.0 for j in range(7)]))
+        if n_over:
+            cases[-1]["n"] = max(cases[-1]["n"], n_over)
     ys = [y for v in _ERFINV_GRID for y in (v, -v)]
     cases.append({"t": "erf_inv", "ys": [float(y).hex() for y in ys], "origin": "grid"})
     vals = [0.05, 0.3, 0.5, 1.0, 1.7, 2.0, 3.0, 10.0, 25.0, 50.0]
